@@ -4,6 +4,7 @@ from hypothesis import strategies as st
 from vf import oracles as O
 from vf.runner import hyp_run, run_cases, guard, fail, exc_failure
 
+THOROUGH_SCALE = 3      # multiplies every generated-case budget of the thorough tier
 RULE = ("parameter sets = switch vector x magnitudes: every on/off combination of tilt_x, tilt_y, tilt_z, wedge, chi, "
         "t_x, t_y, t_z (2^8) x omegasign +-1 x sign of y_size and z_size (4) x the 8 orthogonal flips = 16384 "
         "combinations, enumerated exhaustively (x1 magnitude draw quick, x4 thorough) plus Hypothesis-sampled sets; "
